@@ -882,15 +882,16 @@ pub fn finish(ctx: &Ctx, fin: Finish) -> i32 {
     // known findings: every open one is announced
     let mut announced = BTreeSet::new();
     for k in &ctx.known {
-        if k.status == "open" && announced.insert(k.signature.clone()) {
-            let n = total
-                .excluded_known
-                .get(&k.signature)
-                .map(|x| x.0)
-                .unwrap_or(0);
+        if k.status == "open" && announced.insert(k.what.clone()) {
+            let n: u64 = ctx
+                .known
+                .iter()
+                .filter(|x| x.what == k.what)
+                .map(|x| total.excluded_known.get(&x.signature).map(|e| e.0).unwrap_or(0))
+                .sum();
             println!(
-                "KNOWN-FINDING: property={} {} [{}] (met {} times in this run)",
-                ctx.property, k.what, k.signature, n
+                "KNOWN-FINDING: property={} {} (met {} times in this run)",
+                ctx.property, k.what, n
             );
         }
     }
